@@ -230,6 +230,14 @@ def h_outgoing(ctx, name, flags, enc):
     return obs
 
 
+def h_incoming_encrypted(ctx, enctype, payload):
+    """encrypted incoming message stanzas (one or several envelopes) through the receive-side encryption layer and the message layers,
+    under the ideal manager of C03: exactly one entity at the application"""
+    from checks import c03
+    obs = c03.h_receive(ctx, enctype, "ok", payload)
+    return [(l, o) for l, o in obs if "delivered" in l]
+
+
 def finding_key(case, label, values, where):
     if case.startswith("out[UnregisterIq,") and label.startswith("exactly-one-stanza (got 0)"):
         return "C06|outgoing UnregisterIqProtocolEntity is dropped by every layer"
@@ -251,4 +259,7 @@ def cases(tier):
             cs.append(dict(name="in-unknown[%s]" % tag, fn=h_incoming_unknown, args=(fl, enc), max_paths=4000))
             for n in outs:
                 cs.append(dict(name="out[%s,%s]" % (n.split(":")[-1], tag), fn=h_outgoing, args=(n, fl, enc), max_paths=2000))
+    for enctype in ("pkmsg", "msg", "skmsg", "pkmsg+skmsg"):
+        for payload in ("text", "extended-text"):
+            cs.append(dict(name="in-encrypted[%s,%s]" % (enctype, payload), fn=h_incoming_encrypted, args=(enctype, payload), max_paths=2000))
     return cs
